@@ -217,10 +217,10 @@ def stepDrv (st : St) (line impl : String) : St × String × String :=
           else "ok"
       (st.set c { cs with ch := ch' }, mStr, verdict)
     | _, _, _, _, _, _, _, _ => bad
-  | ["retain", c, through, rts, role, loc, isr, prog, hwlead, maxMsgs, maxBytes] =>
+  | ["retain", c, through, rts, role, loc, isr, prog, hwlead, maxMsgs, maxBytes, failck] =>
     match chan? c, num? through, num? rts, num? role, num? loc, nodes? isr, prog? prog, num? hwlead, num? maxMsgs, num? maxBytes with
     | some c, some through, some rts, some role, some loc, some isr, some prog, some hwlead, some maxMsgs, some maxBytes =>
-      if (role ≠ 1 ∧ role ≠ 2) ∨ through = 0 then bad else
+      if (role ≠ 1 ∧ role ≠ 2) ∨ through = 0 ∨ (failck ≠ "0" ∧ failck ≠ "1") then bad else
       let cs := st.get c
       -- adapter.Load + LoadRetentionState + applyLoadedRetentionState
       let (leo0, ch1) := loadLEO cs.ch
@@ -239,7 +239,7 @@ def stepDrv (st : St) (line impl : String) : St × String × String :=
           (ch1, s!"ok {r0.loc} {r0.phys} {through} 0 0 0 -")
         else
           -- trySubmitRetentionCheckpoint (only when blocked by checkpoint lag, and HW / LEO cover the boundary)
-          let chk := if reason = "checkpoint_lag" ∧ ¬(through ≤ rs.ckhw ∨ through > rs.hw ∨ through > rs.leo)
+          let chk := if reason = "checkpoint_lag" ∧ failck = "0" ∧ ¬(through ≤ rs.ckhw ∨ through > rs.hw ∨ through > rs.leo)
                      then (storeCkptHW ch1 through).1 else ch1
           let (ch2, res) := storeRetention chk through allowed maxMsgs maxBytes
           (ch2, match res with
@@ -272,6 +272,53 @@ def stepDrv (st : St) (line impl : String) : St × String × String :=
           | _ => (cs, "viol:unparseable-output")
         (st.set c { cs' with ch := ch2 }, mStr, verdict)
     | _, _, _, _, _, _, _, _, _, _ => bad
+  | ["fread", c, mode, rev, from_, max, min, limit, rts, em, mm, mrts] =>
+    match chan? c, num? mode, num? rev, big? from_, big? max, big? min, num? limit, num? rts, num? em, num? mm, num? mrts with
+    | some c, some mode, some rev, some from_, some max, some min, some limit, some rts, some em, some mm, some mrts =>
+      if rev > 1 ∨ mode > 6 then bad else
+      let cs := st.get c
+      match fwdDecision mode rts em mm mrts with
+      | .inl e => (st, e, if impl.startsWith "ok" then "viol:forwarded-read-served-despite-fence" else "ok")
+      | .inr (floorIn, minISR) =>
+        let req : Req := ⟨from_, max, min, limit, 0, rev = 1⟩
+        let (ch', res) := readLocal cs.ch req floorIn minISR
+        let mStr := match res with | .error e => errStr e | .ok r => s!"ok {r.next}" ++ seqsStr cs.sync r.msgs
+        let (leo, _) := loadLEO cs.ch
+        let committed := committedOf leo cs.ch.ck minISR
+        let floor := Nat.max floorIn (localRet cs.ch)
+        let verdict := match parseSeqs impl 1 with
+          | none => if impl.startsWith "err:" then "ok" else "viol:unparseable-output"
+          | some seqs =>
+            if readBoundsOK seqs floor committed then "ok"
+            else if seqs.any (fun s => s > committed) then "viol:forwarded-read-above-committed"
+            else "viol:forwarded-read-at-or-below-retention-floor"
+        (st.set c { cs with ch := ch' }, mStr, verdict)
+    | _, _, _, _, _, _, _, _, _, _, _ => bad
+  | ["fsync", c, mode, start, end_, min, limit, rts, minISR] =>
+    match chan? c, num? mode, big? start, big? end_, big? min, num? limit, num? rts, num? minISR with
+    | some c, some mode, some start, some end_, some min, some limit, some rts, some minISR =>
+      if mode > 1 then bad else
+      let cs := st.get c
+      let q : Query := ⟨start, end_, min, limit, mode⟩
+      let lim := if limit = 0 then 1 else limit
+      let (ch', res) := readLocal cs.ch (syncReq q lim) rts minISR
+      -- the RPC codec of the forwarded response drops Message.SyncOnce: the origin cannot filter barrier records
+      let mStr := match res with
+        | .error e => errStr e
+        | .ok r => let (msgs, more) := syncPage q lim [] r; s!"ok {boolStr more}" ++ seqsStr [] msgs
+      let (leo, _) := loadLEO cs.ch
+      let committed := committedOf leo cs.ch.ck minISR
+      let floor := Nat.max rts (localRet cs.ch)
+      let verdict := match parseSeqs impl 1 with
+        | none => if impl.startsWith "err:" then "ok" else "viol:unparseable-output"
+        | some seqs =>
+          if seqs.any (fun s => s > committed) then "viol:sync-above-committed"
+          else if seqs.any (fun s => s ≤ floor) then "viol:sync-at-or-below-retention-floor"
+          else if !noBarrier seqs cs.sync then
+            (if impl = mStr then "viol:sync-page-contains-barrier:forwarded-read-drops-synconce" else "viol:sync-returned-barrier-record")
+          else "ok"
+      (st.set c { cs with ch := ch' }, mStr, verdict)
+    | _, _, _, _, _, _, _, _ => bad
   | _ => bad
 
 end C10Drv
